@@ -424,6 +424,68 @@ void vp_ghost_set_bypass_limit(long base, long per_live_fiber) {
   atomic_store(&g_bypass_limit, base);
 }
 
+// A ready fiber that is never run again cannot be judged at its switch-in. Looked at from the watchdog thread: a fiber that has had
+// the same queue entry (same scheduler, same mark, same arming generation) on three looks >= 100 ms apart while that scheduler
+// performed millions of switches to other fibers - far beyond the bound - is being starved.
+void vp_ghost_check_starved(void) {
+  static const void* cand_key;
+  static uint64_t cand_mark;
+  static int cand_looks;
+  const long lim = atomic_load(&g_bypass_limit);
+  if (!lim) {
+    cand_key = NULL;
+    return;
+  }
+  const long bound = lim + atomic_load(&g_bypass_slack_per_live) * atomic_load(&g_live_peak);
+  const long gen = atomic_load(&g_arm_gen);
+  uint32_t i;
+  const void* found = NULL;
+  uint64_t found_mark = 0, found_wait = 0;
+  int found_si = 0;
+  for (i = 0; i < GSIZE; ++i) {
+    vp_gfiber_t* g = &g_tab[i];
+    const uintptr_t k = atomic_load_explicit(&g->key, memory_order_acquire);
+    if (!k || atomic_load(&g->destroyed) || atomic_load(&g->pending) <= 0 || atomic_load(&g->mark_gen) != gen) continue;
+    const uintptr_t qs = atomic_load(&g->queued_sched);
+    if (!qs) continue;
+    const int si = sched_idx((const void*)qs);
+    const uint64_t mark = atomic_load(&g->queued_mark), sw = atomic_load(&g_sched[si].sw);
+    if (sw > mark && (long)(sw - mark) > 2000000 + 100 * bound) {
+      if (cand_key == (const void*)k && cand_mark == mark) {
+        found = (const void*)k;
+        found_mark = mark;
+        found_wait = sw - mark;
+        found_si = si;
+        break;
+      }
+      if (!found) {
+        found = (const void*)k;
+        found_mark = mark;
+        found_wait = sw - mark;
+        found_si = si;
+      }
+    }
+  }
+  if (!found) {
+    cand_key = NULL;
+    cand_looks = 0;
+    return;
+  }
+  if (cand_key == found && cand_mark == found_mark) {
+    if (++cand_looks >= 3 && atomic_load(&g_arm_gen) == gen) {
+      gviol("C10", "yield:ready-fiber-never-run",
+            "fiber %p has been sitting ready in the run queues of scheduler %d while that scheduler switched to other fibers %llu times (bound %ld): it is being starved",
+            found, found_si, (unsigned long long)found_wait, bound);
+      cand_key = NULL;
+      cand_looks = 0;
+    }
+  } else {
+    cand_key = found;
+    cand_mark = found_mark;
+    cand_looks = 1;
+  }
+}
+
 int vp_ghost_quiescent(void) {
   const uint64_t e = atomic_load(&g_epoch);
   int i, mgrs = 0;
